@@ -207,6 +207,12 @@ def run_case(case, rec):
             v = _wrap(n, pos)
             fn = encode.field_array if pos in ('array', 'array12') \
                 else encode.field_table
+            if n.bit_length() <= 64 and rec.evaluations % 2 == 0:
+                # the same container holding EQUAL values of other types
+                # (1.0, True, Decimal(1)) is encoded first: the integer that
+                # follows must still get its integer tag
+                common.encode_twins(v, common.RND, 1)
+                rec.count('equal_twins_encoded_first')
             e = call(fn, v)
             exp = expected(n, legacy)
             mode = 'legacy' if legacy else 'normal'
